@@ -42,6 +42,9 @@ func (l *Link) Validate() error {
 // LinkByKey finds the link with the given key from the provided list.
 func LinkByKey(list []*Link, k cbc.Key) *Link {
 	for _, l := range list {
+		if l == nil {
+			continue
+		}
 		if l.Key == k {
 			return l
 		}
@@ -56,6 +59,9 @@ func AppendLink(list []*Link, l *Link) []*Link {
 		return list
 	}
 	for _, v := range list {
+		if v == nil {
+			continue
+		}
 		if v.Key == l.Key {
 			*v = *l // copy in place
 			return list
